@@ -1,6 +1,7 @@
 \* keep-unique, exhaustive: every block of <= MaxLen lines x {no regex, group regex, plain regex}
 CONSTANTS
-  Lines <- MCLines
+  Lines <- MCLinesSel
+  Star = FALSE
   Configs <- MCConfigs
   MaxLen = 4
 INIT Init
